@@ -113,8 +113,20 @@ func PlayMulti(beh M, rng *rand.Rand, proj *Projection) ([][]M, error) {
 		}
 	}
 	// startup: concurrently connecting users (sequential sends, each session comes up on its own)
+	// (every third execution: all start-up packets are on their way before the first session is waited for - the
+	// sessions come up at the same time; user names differ in length)
+	overlap := I(beh, "_i")%3 == 1
 	for c := 0; c < nc; c++ {
-		send(c, M{"t": "Startup", "term": true, "kvs": []any{M{"k": "user", "v": fmt.Sprintf("user%d", c+1)}, M{"k": "database", "v": fmt.Sprintf("db%d", c+1)}}}, true)
+		user := fmt.Sprintf("user%d", c+1)
+		if overlap && c%2 == 1 {
+			user = fmt.Sprintf("user%d_with_a_rather_long_name", c+1)
+		}
+		send(c, M{"t": "Startup", "term": true, "kvs": []any{M{"k": "user", "v": user}, M{"k": "database", "v": fmt.Sprintf("db%d", c+1)}}}, !overlap)
+	}
+	if overlap {
+		for c := 0; c < nc; c++ {
+			s.settleConn(conns[c], actor(c))
+		}
 	}
 	if S(cfg, "auth") == "clear" {
 		// every connection has been asked for its password before the first one answers: each login is
